@@ -4,6 +4,8 @@
 package genbench
 
 import (
+	"math"
+	"math/big"
 	"strconv"
 	"strings"
 
@@ -111,12 +113,66 @@ func BenchLine(t *rapid.T) string {
 		nm = rapid.IntRange(30, 80).Draw(t, "nmeasbig")
 	}
 	for i := 0; i < nm; i++ {
-		sb.WriteString(sep(t) + pick(t, floats, "fval") + sep(t) + pick(t, Units, "unit"))
+		sb.WriteString(sep(t) + Float(t) + sep(t) + pick(t, Units, "unit"))
 	}
 	if rapid.IntRange(0, 9).Draw(t, "trailws") == 0 {
 		sb.WriteString(pick(t, []string{" ", "\t", " \u00a0"}, "tw"))
 	}
 	return sb.String()
+}
+
+// pow5 holds the decimal digits of 5^1 .. 5^60: the cut-offs of the slow number path's
+// left shifts are prefixes of these.
+var pow5 = func() []string {
+	var out []string
+	n := new(big.Int).SetInt64(1)
+	for i := 0; i < 60; i++ {
+		n.Mul(n, big.NewInt(5))
+		out = append(out, n.String())
+	}
+	return out
+}()
+
+// Float returns the spelling of a measurement value: mostly from the fixed list, sometimes built
+// around a boundary of the number parser (short mantissa with a decimal exponent just beyond
+// the exactly representable powers of ten, integers between 2^53 and 2^64 written out in full,
+// digit strings that are prefixes of a power of five, shortest and 17-digit forms of arbitrary
+// bit patterns).
+func Float(t *rapid.T) string {
+	if !vcase.OneIn(t, 5, "fgen") {
+		return pick(t, floats, "fval")
+	}
+	sign := pick(t, []string{"", "", "-", "+"}, "fsign")
+	switch rapid.IntRange(0, 4).Draw(t, "fform") {
+	case 0:
+		m := rapid.Int64Range(1, 999999999999999).Draw(t, "fmant")
+		return sign + strconv.FormatInt(m, 10) + pick(t, []string{"e", "E", "e+"}, "fe") + strconv.Itoa(rapid.IntRange(15, 45).Draw(t, "fexp"))
+	case 1:
+		u := rapid.Uint64Range(1<<53, 1<<63+4096).Draw(t, "fbigint")
+		if rapid.Bool().Draw(t, "fnear63") {
+			u = uint64(1<<63) - 3 + uint64(rapid.IntRange(0, 20).Draw(t, "foff"))
+		}
+		return sign + strconv.FormatUint(u, 10) + pick(t, []string{"", "", ".0", "e0", "0"}, "ftail")
+	case 2:
+		d := pick(t, pow5, "fpow5")
+		d = d[:rapid.IntRange(1, len(d)).Draw(t, "fpre")]
+		if len(d) > 1 && rapid.Bool().Draw(t, "fdot") {
+			d = d[:1] + "." + d[1:]
+		}
+		return sign + d + "e" + strconv.Itoa(rapid.IntRange(-340, 290).Draw(t, "fexp5"))
+	case 3:
+		f := math.Float64frombits(rapid.Uint64().Draw(t, "fbits"))
+		if f != f || f-f != 0 {
+			return "1"
+		}
+		return strconv.FormatFloat(f, 'g', -1, 64)
+	default:
+		f := math.Float64frombits(rapid.Uint64().Draw(t, "fbits17"))
+		if f != f || f-f != 0 {
+			return "2"
+		}
+		return strconv.FormatFloat(f, 'e', 16, 64)
+	}
 }
 
 func foreignLine(t *rapid.T) string {
